@@ -28,8 +28,20 @@ FLIP = {'<': '>', '<=': '>=', '>': '<', '>=': '<=', '==': '==', '!=': '!='}
 NEGATE = {'<': '>=', '<=': '>', '>': '<=', '>=': '<', '==': '!=', '!=': '==', 'is': 'is not', 'is not': 'is', 'in': 'not in', 'not in': 'in'}
 
 
+from .known_names import KNOWN, LEGACY_MODS
+
+
 class TooManyPaths(Exception):
     pass
+
+
+class MethodRef(tuple):
+    """(module, defining class, function) of an MRO lookup; remembers the class the lookup started from: the code runs for
+    instances of THAT class, so self-calls inside it dispatch on it (a template method reaching the subclass's hooks)"""
+    def __new__(cls, m, c, n, start=None):
+        o = tuple.__new__(cls, (m, c, n))
+        o.start = start if start is not None else c
+        return o
 
 
 # ======================================================================================
@@ -81,10 +93,34 @@ class Model:
                     scan(n.body)
                     scan(n.orelse)
         scan(tree.body)
+        for x in ast.walk(tree):
+            if isinstance(x, (ast.FunctionDef, ast.AsyncFunctionDef, ast.ClassDef)):
+                x._home = name              # the module a definition lives in: lookups that start elsewhere (an import-back after a move) end here
         return d
 
     # ---- name resolution
     def resolve_global(s, mod, name):
+        return s._canon_g(s._resolve_global(mod, name))
+
+    def _canon_g(s, g):
+        """a function or class that the rules know as <legacy module>.<name> and that now lives in a module added later (moved
+        there, imported back or not) keeps its legacy identity ('g', <legacy module>, name); lookup() follows it to its new home"""
+        if g[0] != 'g' or g[1] in LEGACY_MODS or g[1] not in s.mods:
+            return g
+        if not hasattr(s, '_legacy_owner'):
+            own = {}
+            for k in KNOWN:
+                parts = k.split('.')
+                own.setdefault(parts[1], set()).add(parts[0])
+            s._legacy_owner = {n: next(iter(ms)) for n, ms in own.items() if len(ms) == 1}
+        m0 = s._legacy_owner.get(g[2])
+        if m0 and m0 in s.mods:
+            d0 = s.mods[m0]
+            if g[2] not in d0['funcs'] and g[2] not in d0['classes'] and g[2] not in d0['consts']:
+                return ('g', m0, g[2])
+        return g
+
+    def _resolve_global(s, mod, name):
         d = s.mods[mod]
         if name in d['funcs'] or name in d['classes'] or name in d['consts']:
             return ('g', mod, name)
@@ -106,7 +142,7 @@ class Model:
             return t
         return ('b', name)
 
-    def lookup(s, g):
+    def lookup(s, g, depth=0):
         """('g', mod, name) -> ('func'|'class'|'const', node) or None"""
         if g[0] != 'g' or g[1] not in s.mods:
             return None
@@ -117,6 +153,14 @@ class Model:
             return ('class', d['classes'][g[2]])
         if g[2] in d['consts']:
             return ('const', d['consts'][g[2]])
+        if depth < 3:
+            # not defined here any more: imported back from the module it was moved to, or the package's only definition of it
+            t = d['imports'].get(g[2])
+            if t and t[0] == 'g' and t[1] in s.mods:
+                return s.lookup(t, depth + 1)
+            hits = [(m_, k_) for m_, d_ in s.mods.items() if m_ not in LEGACY_MODS for k_ in ('funcs', 'classes') if g[2] in d_[k_]]
+            if len(hits) == 1:
+                return ('func' if hits[0][1] == 'funcs' else 'class', s.mods[hits[0][0]][hits[0][1]][g[2]])
         return None
 
     def reassigned(s, mod, name):
@@ -161,6 +205,32 @@ class Model:
             s._stored_attrs = st
         return name in s._stored_attrs
 
+    def home(s, mod, name, depth=0):
+        """(module, node) of the class or function that the top-level name `name` means in module `mod`: defined there, imported
+        back from another module of the package, bound by a module-level alias (`f = _Helpers.f`), or -- when the module no
+        longer knows the name at all -- the package's only definition of that name"""
+        if mod in s.mods and depth < 4:
+            g = s.resolve_global(mod, name)
+            lk = s.lookup(g)
+            if lk and lk[0] in ('func', 'class'):
+                return getattr(lk[1], '_home', g[1]), lk[1]
+            if lk and lk[0] == 'const' and not s.reassigned(g[1], g[2]):
+                v = lk[1]
+                if isinstance(v, ast.Name):
+                    return s.home(g[1], v.id, depth + 1)
+                if isinstance(v, ast.Attribute) and isinstance(v.value, ast.Name):
+                    r = s.home(g[1], v.value.id, depth + 1)
+                    if r and isinstance(r[1], ast.ClassDef):
+                        fm = s.find_method(r[0], r[1], v.attr)
+                        if fm:
+                            return fm[0], fm[2]
+                if isinstance(v, ast.Call) and isinstance(v.func, ast.Name) and v.func.id in ('staticmethod', 'classmethod') and len(v.args) == 1 and isinstance(v.args[0], ast.Name):
+                    return s.home(g[1], v.args[0].id, depth + 1)
+            if lk is not None or g[0] != 'b':
+                return None
+        hits = [(m, d[k][name]) for m, d in s.mods.items() for k in ('funcs', 'classes') if name in d[k]]
+        return hits[0] if len(hits) == 1 else None
+
     def find_class(s, name):
         for m, d in s.mods.items():
             if name in d['classes']:
@@ -168,16 +238,18 @@ class Model:
         return None
 
     def bases(s, mod, cls):
+        mod = getattr(cls, '_home', mod)
         out = []
         for b in cls.bases:
             if isinstance(b, ast.Name):
                 g = s.resolve_global(mod, b.id)
                 lk = s.lookup(g)
                 if lk and lk[0] == 'class':
-                    out.append((g[1], lk[1]))
+                    out.append((getattr(lk[1], '_home', g[1]), lk[1]))
         return out
 
     def mro(s, mod, cls):
+        mod = getattr(cls, '_home', mod)
         key = (mod, cls.name)
         if key in s._mro_cache:
             return s._mro_cache[key]
@@ -210,7 +282,7 @@ class Model:
             cands = [n for n in c.body if isinstance(n, ast.FunctionDef) and n.name == name]
             for n in cands:
                 if not any(isinstance(dc, ast.Attribute) and dc.attr in ('setter', 'deleter') for dc in n.decorator_list):
-                    return m, c, n
+                    return MethodRef(m, c, n, cls)
         return None
 
     def find_setter(s, mod, cls, name):
@@ -344,6 +416,16 @@ class Sym:
                 if lk and lk[0] == 'const' and isinstance(lk[1], (ast.Tuple, ast.List)) and lk[1].elts and not s.model.reassigned(g[1], g[2]) \
                         and all(isinstance(x, (ast.Constant, ast.Tuple, ast.List, ast.Load, ast.UnaryOp, ast.USub)) for x in ast.walk(lk[1])):
                     return s.term(lk[1], {}, g[1], None)
+                if lk and lk[0] == 'const' and isinstance(lk[1], (ast.Tuple, ast.List)) and lk[1].elts and not s.model.reassigned(g[1], g[2]) \
+                        and all(isinstance(x, (ast.Constant, ast.Tuple, ast.List, ast.Load, ast.UnaryOp, ast.USub, ast.Name, ast.Attribute)) for x in ast.walk(lk[1])) and getattr(s, '_cc_depth', 0) < 4:
+                    # ... also when its elements name constants (members of a str/int enum of the package, other module constants)
+                    s._cc_depth = getattr(s, '_cc_depth', 0) + 1
+                    try:
+                        t_ = s.term(lk[1], {}, g[1], None)
+                    finally:
+                        s._cc_depth -= 1
+                    if _all_const(t_):
+                        return t_
             return g
         if isinstance(n, ast.Attribute):
             base = T(n.value)
@@ -354,12 +436,33 @@ class Sym:
             if base[0] == 'g':
                 lk = s.model.lookup(base)
                 if lk and lk[0] == 'class':
-                    # class constant
-                    for st in lk[1].body:
-                        if isinstance(st, ast.Assign) and any(isinstance(t, ast.Name) and t.id == n.attr for t in st.targets) and isinstance(st.value, ast.Constant):
-                            return ('c', st.value.value)
-                        if isinstance(st, ast.Assign) and any(isinstance(t, ast.Name) and t.id == n.attr for t in st.targets) and _literal_table(st.value):
-                            return s.term(st.value, {}, base[1], None)
+                    # class constant (own or inherited from a base class of the package)
+                    try:
+                        chain_ = s.model.mro(base[1], lk[1])
+                    except ValueError:
+                        chain_ = [(base[1], lk[1])]
+                    for m_, c_ in chain_:
+                        hit_ = [st for st in c_.body if isinstance(st, ast.Assign) and any(isinstance(t, ast.Name) and t.id == n.attr for t in st.targets)]
+                        if not hit_:
+                            continue
+                        st = hit_[-1]
+                        if len(hit_) == 1 and isinstance(st.value, ast.Constant):
+                            if _is_enum(c_) and not _value_enum(c_):
+                                break                    # a member of a plain Enum is not its value (it does not compare equal to it)
+                            return ('c', st.value.value)  # a class constant; a member of a str / int enum compares and hashes as its value
+                        if len(hit_) == 1 and _literal_table(st.value):
+                            return s.term(st.value, {}, m_, None)
+                        if len(hit_) == 1 and isinstance(st.value, (ast.Name, ast.Attribute)) and getattr(s, '_cc_depth', 0) < 4:
+                            s._cc_depth = getattr(s, '_cc_depth', 0) + 1       # X = _consts.X / X = _X : the constant it names
+                            try:
+                                v_ = s.term(st.value, {}, m_, None)
+                            finally:
+                                s._cc_depth -= 1
+                            if v_[0] in ('g', 'c'):
+                                return v_
+                        break
+            if base == ('self',) and s.known is not None and ('self.' + n.attr) in env and isinstance(n.ctx, ast.Load):
+                return env['self.' + n.attr]          # deep mode: a field read after the path stored it is the stored value
             if base == ('self',) and s.known is not None and cls is not None and getattr(s, '_prop_depth', 0) < 3:
                 # deep mode: a read of a property whose getter is a single `return <expr>` is that expression
                 dm, dc = getattr(s, '_dyn', (mod, cls))
@@ -369,7 +472,9 @@ class Sym:
                     if len(body) == 1 and isinstance(body[0], ast.Return) and body[0].value is not None:
                         s._prop_depth = getattr(s, '_prop_depth', 0) + 1
                         try:
-                            return s.term(body[0].value, {r[2].args.args[0].arg: ('self',)}, r[0], r[1])
+                            env_p = {r[2].args.args[0].arg: ('self',)}
+                            env_p.update({k_: v_ for k_, v_ in env.items() if isinstance(k_, str) and k_.startswith('self.')})
+                            return s.term(body[0].value, env_p, r[0], r[1])
                         finally:
                             s._prop_depth -= 1
             if base[0] == 'call' and base[1][0] == 'g':
@@ -655,6 +760,8 @@ class Sym:
         l0 = Leaf()
         l0.env = env
         s._mod, s._cls, s._depth = mod, cls, depth
+        par_ = getattr(fn, '_parent', None)
+        s._defcls = par_ if isinstance(par_, ast.ClassDef) else cls          # the class whose body holds the code (super() starts after it)
         s._dyn = (mod, cls)          # the class of `self` for method / property resolution (kept through inlining: dynamic dispatch)
         s._npaths = 0
         leaves = s.block(fn.body, [l0])
@@ -773,6 +880,8 @@ class Sym:
                         leaf.effects.append(('call', x, None, n, len(leaf.conds)))
                 continue
             leaf.effects.append(('call', t, None, n, len(leaf.conds)))
+            if s.known is not None and t[0] == 'call' and ((t[1][0] == 'attr' and (t[1][1] == ('self',) or (t[1][1][0] == 'call' and t[1][1][1] == ('b', 'super')))) or any(a_ == ('self',) for a_ in t[2])):
+                s._drop_forwards(leaf.env)          # a method of self that was not followed (or a callee given self) may store fields
         if not isinstance(expr, (ast.Constant, ast.Name)):
             leaf.effects.append(('eval', s.T(expr, leaf), None, expr, len(leaf.conds)))
 
@@ -794,6 +903,8 @@ class Sym:
             leaf.effects.append(('store', ('attr', base, tgt.attr), val, node, len(leaf.conds)))
             if base == ('self',):
                 leaf.env['self.' + tgt.attr] = val
+            elif s.known is not None:
+                leaf.env.pop('self.' + tgt.attr, None)       # a store through another reference may alias self
         elif isinstance(tgt, ast.Subscript):
             base = s.T(tgt.value, leaf)
             idx = s.T(tgt.slice, leaf)
@@ -829,6 +940,22 @@ class Sym:
             lk = m.lookup(g)
             if lk and lk[0] == 'func':
                 tgt = (g[1], None, lk[1], False, '%s.%s' % (g[1], lk[1].name))
+        elif isinstance(f, ast.Attribute) and isinstance(f.value, ast.Call) and isinstance(f.value.func, ast.Name) and f.value.func.id == 'super' and not f.value.args \
+                and getattr(s, 'inline_super', False) and getattr(s, '_defcls', None) is not None and leaf.env.get('self', ('self',)) == ('self',):
+            # on request (typestate rules): super().m(...) is the next definition of m after the class that holds the running code, in the MRO of the object's class
+            dm, dc = getattr(s, '_dyn', (s._mod, s._cls))
+            try:
+                chain_ = m.mro(dm, dc) if dc is not None else []
+            except ValueError:
+                chain_ = []
+            idx_ = [i_ for i_, (_m, c_) in enumerate(chain_) if c_ is s._defcls]
+            if idx_:
+                for m_, c_ in chain_[idx_[0] + 1:]:
+                    cands_ = [n_ for n_ in c_.body if isinstance(n_, ast.FunctionDef) and n_.name == f.attr and not any(isinstance(d_, ast.Attribute) and d_.attr in ('setter', 'deleter') for d_ in n_.decorator_list)]
+                    if cands_:
+                        if not m.is_property(cands_[0]) and not any(isinstance(d_, ast.Name) and d_.id in ('staticmethod', 'classmethod') for d_ in cands_[0].decorator_list):
+                            tgt = (m_, c_, cands_[0], True, '%s.%s.%s' % (m_, c_.name, cands_[0].name))
+                        break
         elif isinstance(f, ast.Attribute) and isinstance(f.value, ast.Name):
             if f.value.id == 'self' and s._cls is not None and leaf.env.get('self', ('self',)) == ('self',):
                 dm, dc = getattr(s, '_dyn', (s._mod, s._cls))
@@ -838,12 +965,27 @@ class Sym:
                     tgt = (r[0], r[1], r[2], not static, '%s.%s.%s' % (r[0], r[1].name, r[2].name))
             else:
                 g = m.resolve_global(s._mod, f.value.id) if f.value.id not in leaf.env else None
+                if g and g[0] == 'mod' and g[1] in m.mods:
+                    g2 = m.resolve_global(g[1], f.attr)          # helpers.f(...) through `from . import helpers`
+                    lk2 = m.lookup(g2)
+                    if lk2 and lk2[0] == 'func':
+                        tgt = (g2[1], None, lk2[1], False, '%s.%s' % (g2[1], lk2[1].name))
                 lk = m.lookup(g) if g else None
                 if lk and lk[0] == 'class':
                     r = m.find_method(g[1], lk[1], f.attr)
                     if r and any(isinstance(d, ast.Name) and d.id == 'staticmethod' for d in r[2].decorator_list):
                         tgt = (r[0], r[1], r[2], False, '%s.%s.%s' % (r[0], r[1].name, r[2].name))
-        if tgt is None or tgt[4] in (KNOWN if s.known is None else s.known):
+                    elif r and s._cls is not None and call.args and isinstance(call.args[0], ast.Name) and call.args[0].id == 'self' and leaf.env.get('self', ('self',)) == ('self',) \
+                            and not m.is_property(r[2]) and not any(isinstance(d, ast.Name) and d.id in ('staticmethod', 'classmethod') for d in r[2].decorator_list):
+                        dm, dc = getattr(s, '_dyn', (s._mod, s._cls))
+                        try:
+                            in_mro = dc is not None and any(c_ is lk[1] for _m, c_ in m.mro(dm, dc))
+                        except ValueError:
+                            in_mro = False
+                        if in_mro:
+                            # Base.method(self, ...): an explicit call of a base-class method on this object
+                            tgt = (r[0], r[1], r[2], 'explicit-self', '%s.%s.%s' % (r[0], r[1].name, r[2].name))
+        if tgt is None or s._is_known(tgt):
             return None
         fn = tgt[2]
         if any(isinstance(x, (ast.Yield, ast.YieldFrom)) for x in ast.walk(fn)):
@@ -853,6 +995,32 @@ class Sym:
         if any(isinstance(a, ast.Starred) for a in call.args) and s._pos_arg_terms(call, leaf) is None:
             return None
         return tgt
+
+    @staticmethod
+    def _drop_forwards(env):
+        """forget what the path stored in fields of self (deep mode forwards stores to later loads): past a loop or a call
+        that was not followed the stored value may be stale"""
+        for k in [k for k in env if isinstance(k, str) and k.startswith('self.')]:
+            del env[k]
+
+    def _is_known(s, tgt):
+        """is the callee one the rules refer to by name?  By its qualified name, or -- after a move -- as the same method now
+        inherited from a base class it was pulled up into, or the same function / class in a module added later"""
+        from .known_names import KNOWN, LEGACY_MODS
+        K = KNOWN if s.known is None else s.known
+        if not K:
+            return False
+        if tgt[4] in K:
+            return True
+        mod2, cls2, fn = tgt[0], tgt[1], tgt[2]
+        if cls2 is None:
+            return mod2 not in LEGACY_MODS and any(k.count('.') == 1 and k.split('.')[-1] == fn.name for k in K)
+        for m_, c_ in s.model.subclasses(mod2, cls2):
+            if '%s.%s.%s' % (m_, c_.name, fn.name) in K:
+                r_ = s.model.find_method(m_, c_, fn.name)
+                if r_ is not None and r_[2] is fn:          # the subclass inherits it (does not define its own)
+                    return True
+        return mod2 not in LEGACY_MODS and any(k.endswith('.%s.%s' % (cls2.name, fn.name)) for k in K)
 
     def _pos_arg_terms(s, call, leaf):
         """positional argument terms with `*x` expanded when x is a tuple of known length; None when a star cannot be expanded"""
@@ -874,6 +1042,7 @@ class Sym:
     def inline_call(s, call, leaf, tgt):
         """-> list of (leaf, value term | None, raised?)"""
         mod2, cls2, fn, bound, _ = tgt
+        mod2 = getattr(fn, '_home', mod2)          # the module whose names the body refers to (a moved helper keeps its legacy identity in terms)
         params = [a.arg for a in fn.args.posonlyargs + fn.args.args]
         env = {}
         if bound and params:
@@ -884,6 +1053,8 @@ class Sym:
         argt = s._pos_arg_terms(call, leaf)
         if argt is None:
             return None
+        if bound == 'explicit-self':
+            argt = argt[1:]                      # Base.method(self, a, b): self is the first positional argument
         for a in call.args:
             s.note_calls(a.value if isinstance(a, ast.Starred) else a, leaf)
         for k in call.keywords:
@@ -914,19 +1085,27 @@ class Sym:
             return None
         inner = Leaf()
         inner.env = env
+        same_self = bool(bound) and leaf.env.get('self', ('self',)) == ('self',)
+        if s.known is not None and same_self:
+            env.update({k_: v_ for k_, v_ in leaf.env.items() if isinstance(k_, str) and k_.startswith('self.')})
         inner.conds = list(leaf.conds)          # what the caller's path already decided stays decided inside the helper (no contradictory paths)
-        save = (s._mod, s._cls)
+        save = (s._mod, s._cls, getattr(s, '_defcls', None))
         s._mod, s._cls = mod2, (cls2 if bound else (cls2 if cls2 is not None else None))
+        s._defcls = cls2 if cls2 is not None else save[2]
         s._inline_depth += 1
         try:
             res = s.block(fn.body, [inner])
         finally:
-            s._mod, s._cls = save
+            s._mod, s._cls, s._defcls = save
             s._inline_depth -= 1
         out = []
         base = len(leaf.conds)
         for r in res:
             l2 = leaf.clone()
+            if s.known is not None:
+                s._drop_forwards(l2.env)
+                if same_self:
+                    l2.env.update({k_: v_ for k_, v_ in r.env.items() if isinstance(k_, str) and k_.startswith('self.')})
             l2.conds += r.conds[base:]
             for e in r.effects:
                 l2.effects.append(e[:4] + (e[4],))
@@ -1321,6 +1500,7 @@ class Sym:
         skip = leaf.clone()
         skip.effects.append(('loop-skip', it, None, st, len(skip.conds)))
         one = leaf.clone()
+        s._drop_forwards(one.env)
         for nm in s._assigned_names(st.body, leaf.env):
             if nm in one.env:
                 one.env[nm] = ('loopvar', nm, st.lineno, one.env[nm])
@@ -1330,6 +1510,7 @@ class Sym:
         one.effects.append(('loop-enter', it, None, st, len(one.conds)))
         out = []
         for r in s.block(st.body, [one]):
+            s._drop_forwards(r.env)
             r.effects.append(('loop-exit', r.outcome, None, st, len(r.conds)))
             if r.outcome in ('break', 'continue'):
                 r.outcome = None
@@ -1355,6 +1536,7 @@ class Sym:
         const_true = isinstance(st.test, ast.Constant) and bool(st.test.value)
         res = []
         one = leaf.clone()
+        s._drop_forwards(one.env)
         assigned = s._assigned_names(st.body, leaf.env)
         for nm in assigned:
             if nm in one.env:
@@ -1372,6 +1554,7 @@ class Sym:
                 res.append(l)
         for r in s.block(st.body, starts):
             broke = r.outcome == 'break'
+            s._drop_forwards(r.env)
             r.effects.append(('loop-exit', r.outcome, None, st, len(r.conds)))
             if r.outcome in ('break', 'continue'):
                 r.outcome = None
@@ -1475,6 +1658,31 @@ def _percent_to_format(t):
             out.append('{{' if c == '{' else '}}' if c == '}' else c)
             i += 1
     return ''.join(out), n
+
+
+_ENUM_BASES = ('Enum', 'IntEnum', 'StrEnum', 'IntFlag', 'Flag')
+
+
+def _base_names(c):
+    return [b.id if isinstance(b, ast.Name) else (b.attr if isinstance(b, ast.Attribute) else None) for b in c.bases]
+
+
+def _is_enum(c):
+    return any(b in _ENUM_BASES for b in _base_names(c))
+
+
+def _value_enum(c):
+    """an enum whose members ARE values of a builtin type: class X(str, Enum) / (int, Enum) / IntEnum / StrEnum / IntFlag"""
+    bs = _base_names(c)
+    return any(b in ('IntEnum', 'StrEnum', 'IntFlag') for b in bs) or (any(b in ('str', 'int') for b in bs) and _is_enum(c))
+
+
+def _all_const(t):
+    if t[0] == 'c':
+        return True
+    if t[0] in ('tuple', 'list'):
+        return all(_all_const(x) for x in t[1])
+    return False
 
 
 def _literal_table(v):
